@@ -5,6 +5,33 @@
   Strings are abstracted to integer codes compared for equality only: the literal "none" is IR_NONE = 0,
   a missing or empty `my-incarnation` is None, a missing `last-connection` is None.
 * constants (CONNECTION_TIMEOUT) and shape facts of the connect/attach/fail paths (seqnum bump, who is told what).
+
+Alternative source forms that are accepted (each is equivalent to the reference form for all inputs; the side
+condition is CHECKED, never assumed; anything else fails closed):
+
+ F1  `if bool(E):` is read as `if E:`  (strip_bool).  An `if` test and `bool()` both determine truth by the same
+     protocol (__bool__, else __len__, else True), evaluate E exactly once and propagate the same exception;
+     side condition: the name `bool` is not bound anywhere in the module (no assignment, def, class, import,
+     parameter or global of that name), so it is the builtin.
+ F2  on an attribute A that is a PLAIN DICT (plain_dict_attr: every store to `<anything>.A` in every module of the
+     package -- tests included -- assigns a `{}` display; A is never deleted and never the target of an augmented /
+     annotated / tuple / for / with assignment; the name A occurs in no string literal, so no setattr/getattr by
+     name): every object A can hold is then a builtin dict, whose methods run no user code except the key's
+     __hash__/__eq__.  Each form below is accepted because it establishes, by the semantics of builtin dict, the
+     SAME FACT the model uses as the reference form (final table state and the moment it is reached); the forms may
+     differ in how often the key is hashed/compared, which the model does not depend on:
+       F2a `list(self.A)`  for  `list(self.A.keys())`: one snapshot of the same keys in the same order (no key is
+           hashed by either); also needs `list` unbound in the module.
+       F2b `v = self.A.pop(k)` directly under `if k in self.A:`  for  `v = self.A[k]; del self.A[k]`:
+           v is the stored value and the entry is gone when the statement completes, i.e. before the errbacks run.
+       F2c `self.A.setdefault(k, []).append(d)`  for  `if k not in self.A: self.A[k] = []` + `self.A[k].append(d)`:
+           afterwards self.A[k] is the previously stored list (or a new one) with d appended; the unused `[]` is
+           unobservable.
+       F2d `for k, v in list(self.A.items()): if v is X: del self.A[k]`  for
+           `for k in list(self.A.keys()): if self.A[k] is X: del self.A[k]`: the snapshot holds the same pairs and
+           the body deletes only the current key, so the value read later by the reference form is the snapshot's
+           value; side condition: the loop body is exactly that `if`, v is a fresh local.
+     Not accepted: any of these on an attribute whose stores are not all `{}` displays.
 """
 import ast
 from translate import pylite as P
@@ -181,6 +208,71 @@ def need(cond, msg):
         raise U(msg)
 
 
+def binds_name(mod, name):
+    """is `name` bound anywhere in the module (so that it may not be the builtin)?"""
+    for n in ast.walk(mod):
+        if isinstance(n, ast.Name) and n.id == name and isinstance(n.ctx, (ast.Store, ast.Del)):
+            return True
+        if isinstance(n, (ast.FunctionDef, ast.AsyncFunctionDef, ast.ClassDef)) and n.name == name:
+            return True
+        if isinstance(n, ast.arg) and n.arg == name:
+            return True
+        if isinstance(n, (ast.Import, ast.ImportFrom)):
+            for a in n.names:
+                if (a.asname or a.name).split(".")[0] == name or a.name == "*":
+                    return True
+        if isinstance(n, (ast.Global, ast.Nonlocal)) and name in n.names:
+            return True
+    return False
+
+
+def strip_bool(test, mod):
+    """F1: `bool(E)` in test position is E, when `bool` is the builtin"""
+    if isinstance(test, ast.Call) and isinstance(test.func, ast.Name) and test.func.id == "bool" \
+            and len(test.args) == 1 and not test.keywords and not isinstance(test.args[0], ast.Starred) \
+            and not binds_name(mod, "bool"):
+        return test.args[0]
+    return test
+
+
+_plain = {}
+
+
+def plain_dict_attr(attr):
+    """F2 side condition: every store to <obj>.<attr> in the whole package assigns a `{}` display; see the docstring"""
+    if attr in _plain:
+        return _plain[attr]
+    import os
+    ok, stores = True, 0
+    for root, _, files in os.walk(P.SRC):
+        for fn in files:
+            if not fn.endswith(".py"):
+                continue
+            try:
+                with open(os.path.join(root, fn)) as f:
+                    tree = ast.parse(f.read())
+            except (SyntaxError, UnicodeDecodeError):
+                ok = False
+                continue
+            good_targets = set()
+            for n in ast.walk(tree):
+                if isinstance(n, ast.Assign) and isinstance(n.value, ast.Dict) and not n.value.keys:
+                    for t in n.targets:
+                        if isinstance(t, ast.Attribute) and t.attr == attr:
+                            good_targets.add(id(t))
+                            stores += 1
+            for n in ast.walk(tree):
+                if isinstance(n, ast.Attribute) and n.attr == attr and isinstance(n.ctx, (ast.Store, ast.Del)) \
+                        and id(n) not in good_targets:
+                    ok = False
+                if isinstance(n, ast.Constant) and isinstance(n.value, (str, bytes)):
+                    v = n.value if isinstance(n.value, str) else n.value.decode("latin-1")
+                    if v == attr:
+                        ok = False
+    _plain[attr] = ok and stores >= 1
+    return _plain[attr]
+
+
 def generate():
     mod = P.load("negotiate.py")
     out = [P.PRELUDE % dict(src="negotiate.py, connection.py, pb.py, broker.py")]
@@ -307,7 +399,7 @@ Definition optZ_eqb (a b : option Z) : bool :=
     fl = un(P.find_def(cm, "TubConnector.failed"))
     need("self.tub.connectionFailed(self.target, self.failureReason)" in fl, "TubConnector.failed no longer tells the Tub")
     cf = P.find_def(cm, "TubConnector.checkForFailure")
-    tests = [un(n.test) for n in cf.body if isinstance(n, ast.If)]
+    tests = [un(strip_bool(n.test, cm)) for n in cf.body if isinstance(n, ast.If)]
     need(tests[:2] == ["not self.active", "self.remainingLocations or self.pendingConnections or self.pendingNegotiations"]
          and un(cf.body[-1]) == "self.failed()", "checkForFailure changed: %s" % tests)
     done = un(P.find_def(cm, "TubConnector.connectorNegotiationComplete"))
@@ -315,9 +407,15 @@ Definition optZ_eqb (a b : option Z) : bool :=
     nfail = un(P.find_def(cm, "TubConnector.connectorNegotiationFailed"))
     need(0 <= nfail.find("self.pendingNegotiations.pop(n, None)") < nfail.find("self.checkForFailure()"),
          "connectorNegotiationFailed changed")
-    cr = un(P.find_def(cm, "TubConnector.cancelRemainingConnections"))
-    need("for n in list(self.pendingNegotiations.keys()):" in cr and "n.transport.loseConnection()" in cr,
-         "cancelRemainingConnections changed")
+    crd = P.find_def(cm, "TubConnector.cancelRemainingConnections")
+    loops = [n for n in crd.body if isinstance(n, ast.For) and "n.transport.loseConnection()" in un(n)]
+    need(len(loops) == 1 and un(loops[0].target) == "n" and not loops[0].orelse and
+         [un(x) for x in loops[0].body if not (isinstance(x, ast.Expr) and isinstance(x.value, ast.Constant))] ==
+         ["n.transport.loseConnection()"], "cancelRemainingConnections changed")
+    it = un(loops[0].iter)
+    need(it == "list(self.pendingNegotiations.keys())" or
+         (it == "list(self.pendingNegotiations)" and plain_dict_attr("pendingNegotiations") and not binds_name(cm, "list")),
+         "cancelRemainingConnections iterates over %s" % it)        # F2a
 
     # ---- pb.py
     pm = P.load("pb.py")
@@ -352,8 +450,13 @@ Definition optZ_eqb (a b : option Z) : bool :=
     need(isinstance(loop, ast.For) and un(loop.target) == "d" and
          un(loop.iter) in ("waiting", "self.waitingForBrokers.pop(tubref, [])"), "Tub.connectionFailed: errback loop changed")
     if un(loop.iter) == "waiting":
-        need("waiting = self.waitingForBrokers[tubref]" in un(cfd) and "del self.waitingForBrokers[tubref]" in un(cfd),
-             "Tub.connectionFailed: the waiting list is no longer detached before the errbacks")
+        body = parent[loop].body if isinstance(parent[loop], ast.If) else parent[loop].body
+        k = body.index(loop)
+        before = [un(x) for x in body[:k]]
+        ref_form = before[-2:] == ["waiting = self.waitingForBrokers[tubref]", "del self.waitingForBrokers[tubref]"]
+        pop_form = (before[-1:] == ["waiting = self.waitingForBrokers.pop(tubref)"] and isinstance(parent[loop], ast.If)
+                    and un(parent[loop].test) == "tubref in self.waitingForBrokers" and plain_dict_attr("waitingForBrokers"))   # F2b
+        need(ref_form or pop_form, "Tub.connectionFailed: the waiting list is no longer detached before the errbacks")
     # ... and is skipped exactly when a Broker exists
     src_cf = un(cfd)
     need(("if tubref in self.brokers:\n        return" in src_cf and src_cf.find("if tubref in self.brokers:") < src_cf.find("d.errback(why)"))
@@ -368,11 +471,38 @@ Definition optZ_eqb (a b : option Z) : bool :=
     first = forget[0].lineno < errb[0].lineno
     out.append("Definition connection_failed_forgets_first : bool := %s.   (* Tub.connectionFailed: tubConnectors entry removed "
                "before the waiters are errbacked *)" % ("true" if first else "false"))
-    gb = un(P.find_def(pm, "Tub.getBrokerForTubRef"))
+    gbd = P.find_def(pm, "Tub.getBrokerForTubRef")
+    gb = un(gbd)
     for frag in ("if tubref in self.brokers:", "return defer.succeed(self.brokers[tubref])",
-                 "self.waitingForBrokers[tubref].append(d)", "if tubref not in self.tubConnectors:",
-                 "self.tubConnectors[tubref] = c", "c.connect()"):
+                 "if tubref not in self.tubConnectors:", "c.connect()"):
         need(frag in gb, "Tub.getBrokerForTubRef no longer contains: " + frag)
-    bd = un(P.find_def(pm, "Tub.brokerDetached"))
-    need("if self.brokers[tubref] is broker:" in bd and "del self.brokers[tubref]" in bd, "Tub.brokerDetached changed")
+    stmts = [un(x) for x in gbd.body]
+    reg_ref = any(stmts[i:i + 2] == ["if tubref not in self.waitingForBrokers:\n    self.waitingForBrokers[tubref] = []",
+                                     "self.waitingForBrokers[tubref].append(d)"] for i in range(len(stmts)))
+    reg_sd = "self.waitingForBrokers.setdefault(tubref, []).append(d)" in stmts and plain_dict_attr("waitingForBrokers")   # F2c
+    need(reg_ref or reg_sd, "Tub.getBrokerForTubRef no longer registers the waiter in waitingForBrokers[tubref]")
+    # the connector is registered in tubConnectors before it starts connecting (whatever the local is called)
+    starts = [n for n in gbd.body if isinstance(n, ast.If) and un(n.test) == "tubref not in self.tubConnectors"]
+    need(len(starts) == 1, "Tub.getBrokerForTubRef: connector start changed")
+    sb = [x for x in starts[0].body if not isinstance(x, ast.Assert)]
+    need(len(sb) == 3 and isinstance(sb[0], ast.Assign) and isinstance(sb[0].targets[0], ast.Name)
+         and un(sb[0].value) == "connection.TubConnector(self, tubref, self._connectionHandlers)"
+         and un(sb[1]) == "self.tubConnectors[tubref] = %s" % sb[0].targets[0].id
+         and un(sb[2]) == "%s.connect()" % sb[0].targets[0].id, "Tub.getBrokerForTubRef: connector start changed: %s" % [un(x) for x in sb])
+    for a in starts[0].body:
+        if isinstance(a, ast.Assert):      # an assert restating the guard it sits under is a no-op
+            need(un(a.test) == "tubref not in self.tubConnectors" and starts[0].body.index(a) == 0,
+                 "Tub.getBrokerForTubRef: unexpected assert")
+    bdd = P.find_def(pm, "Tub.brokerDetached")
+    loops = [n for n in bdd.body if isinstance(n, ast.For)]
+    need(len(loops) == 1 and not loops[0].orelse and len(loops[0].body) == 1, "Tub.brokerDetached changed")
+    lp, inner = loops[0], un(loops[0].body[0])
+    det_ref = (un(lp.target) == "tubref" and un(lp.iter) == "list(self.brokers.keys())"
+               and inner == "if self.brokers[tubref] is broker:\n    del self.brokers[tubref]")
+    det_items = (isinstance(lp.target, ast.Tuple) and len(lp.target.elts) == 2 and un(lp.target.elts[0]) == "tubref"
+                 and isinstance(lp.target.elts[1], ast.Name) and lp.target.elts[1].id not in ("broker", "tubref", "self", "why")
+                 and un(lp.iter) == "list(self.brokers.items())"
+                 and inner == "if %s is broker:\n    del self.brokers[tubref]" % lp.target.elts[1].id
+                 and plain_dict_attr("brokers") and not binds_name(pm, "list"))                                        # F2d
+    need(det_ref or det_items, "Tub.brokerDetached changed")
     return {"ConvergeGen.v": "\n\n".join(out) + "\n"}
